@@ -89,6 +89,10 @@ def run(ctx):
         _check_entry(ctx, name, lam, kind)
     _check_cli(ctx, peps, qvs)
     _check_env(ctx)
+    # the PEP a result file shows in a row is that row's PEP only if the
+    # header and the rows agree on the column order (shared with C03e/C13)
+    from .c03 import header_data_agreement
+    header_data_agreement(ctx, "C06f-header-matches-rows")
 
 
 def _check_entry(ctx, name, lam, kind):
